@@ -11,6 +11,12 @@ def handleSyntax : List String → Option String
     let off ← parseNat? off
     let s ← parseText? txt
     return " ".intercalate ((lexFrom realCharSpec off s).map renderTok)
+  | ["tokens_fm", txt] => do
+    let s ← parseText? txt
+    let toks := match parseFrontmatter realCharSpec s with
+      | some fm => lexFrom realCharSpec fm.cookOffset fm.cookText
+      | none => lex realCharSpec s
+    return if toks.isEmpty then "<none>" else " ".intercalate (toks.map renderTok)
   | ["events", ext, txt] => do
     let ext ← parseNat? ext
     let s ← parseText? txt
